@@ -40,7 +40,7 @@ theorem locus_canonC (name mol top dv : Bytes) (n : Nat) (d : Date) (k2 k3 k5 : 
     intro c hc; rw [sp_head_blank k2 X c hc]; exact blank_not_notSpace)
   have r4 := fun X s => spaces_ok (sp (k2 + 1)) (natDigits n ++ X) s (sp_all_space _) (by
     intro c hc; rw [hdg3] at hc; simp at hc; subst hc; exact digit_not_space _ hdg0)
-  have r5 := fun X s => int_natDigits n (bs " bp" ++ X) s (by simp [bs, List.dropWhile, isDigit]) hn
+  have r5 := fun X s => int_natDigits n (bs " bp" ++ X) s (by simp [bs, isDigit]) hn
   have r6 : ∀ X s, bpOrAa ⟨bs " bp" ++ X, s⟩ = (.ok (), ⟨X, s⟩) := by
     intro X s; gsimp [bpOrAa, lit_ok]
   have r7 := fun X s => spaces_ok (sp (k3 + 1)) (mol ++ X) s (sp_all_space _) (by
@@ -55,7 +55,7 @@ theorem locus_canonC (name mol top dv : Bytes) (n : Nat) (d : Date) (k2 k3 k5 : 
   have hasd := date_roundtrip d hd
   have htail := fun s => division_runC dv d.text rest s k5 hdv hdt
   obtain ⟨mid, t1, t2, t3⟩ := htail (_ :: _ :: stk)
-  simp only [locusParser, locusCanon, P.bind_run, push, getS, setS, P.pure_run,
+  simp only [locusParser, locusCanon, P.bind_run, push, getS, setS,
     locusTry_ok _ _ _ _ (r1 _ _), r2, locusTry_ok _ _ _ _ (r3 _ _), r4, locusTry_ok _ _ _ _ (r5 _ _),
     locusTry_ok _ _ _ _ (r6 _ _), r7, locusTry_ok _ _ _ _ (r8 _ _), r9, locusTry_ok _ _ _ _ (r10 _ _)]
   rw [t1]; simp only []
@@ -80,9 +80,8 @@ theorem locus_roundtripC (f : Fields) (length : Int) (rest : Bytes) (stk : List 
       locusCanon f.locusName (natDigits n) f.molecule (topologyText f.topology)
         ((17 - f.locusName.length) + (10 - (natDigits n).length)) (6 - f.molecule.length) k5
         (f.division ++ 32 :: (f.date.text ++ 13 :: 10 :: rest)) := by
-    have e1 : padRight 12 (bs "LOCUS") = bs "LOCUS" ++ sp 7 := by decide
     have e2 : bs " bp " = bs " bp" ++ [32] := by decide
-    simp only [locusLine, locusCanon, hdig, e1, e2, padRight, padLeft, List.append_assoc, List.cons_append,
+    simp only [locusLine, locusCanon, hdig, e2, padRight, padLeft, List.append_assoc, List.cons_append,
       List.nil_append, hk5]
     have h7 : sp (12 - (bs "LOCUS").length) = sp 7 := by decide
     have hb : ∀ (c : Nat) (X : Bytes), (32 : UInt8) :: (sp c ++ X) = sp (c + 1) ++ X := by
